@@ -47,6 +47,16 @@ pub fn unit_name(plan: &Plan, u: usize) -> String {
 
 pub fn o_end(plan: &Plan, out: &Outcome, vs: &mut Vec<Violation>) {
     let faulted = out.w.fault_fired.is_some();
+    if out.w.op_budget_exceeded {
+        // the conversation is finite, so is the work it can cause: a run that performs more
+        // transport operations than any legitimate one is spinning on the transport
+        vs.push(v(
+            "wedged",
+            "operation budget",
+            format!("run performed more than {} transport operations", crate::stream::OP_BUDGET),
+        ));
+        return;
+    }
     if let RunEnd::Panic { loc, msg } = &out.end {
         vs.push(v(
             "panic",
